@@ -314,13 +314,23 @@ def _r_upper(case, m, s):
     return lst is not None and lst != _ascii_lower(lst) and "</" in case[3]
 
 
+def _spec_tokens(case):
+    """canonical tokens of the WHATWG reference (H5.Spec.Tokenizer, driver op spec-tok) on another case"""
+    return dec_line(tc.run_driver([tc.req("spec-tok", case)], shards=1)[0])
+
+
 @rule("appropriate-end-tag/unicode-lowercasing")
 def _r_unilower(case, m, s):
-    # last start tag contains a non-ASCII character whose Unicode lower-casing is/contains ASCII
-    # (U+212A KELVIN SIGN, U+0130): html5lib's str.lower() makes `</k>` match
+    # last start tag is non-ASCII but its Unicode lower-casing is plain ASCII (U+212A KELVIN SIGN -> 'k'): html5lib
+    # compares str.lower() of both sides, so `</k>` / `</K>` is the appropriate end tag.  The recorded defect and
+    # nothing else: the observed tokens are exactly what the standard prescribes for the lower-cased last start tag.
     lst = case[1]
-    return lst is not None and any(ord(ch) > 127 and any(ord(x) < 128 for x in ch.lower()) for ch in lst) \
-        and "</" in case[3]
+    if lst is None or lst.isascii() or "</" not in case[3]:
+        return False
+    low = lst.lower()
+    if not low.isascii() or low == lst:
+        return False
+    return _spec_tokens((case[0], low, case[2], case[3])) == m
 
 
 def cdata_nul_candidates(text):
